@@ -277,6 +277,8 @@ def register(reg):
                 out += [
                     ("socks_tcp_goes_to_the_proxy", ("C10", "C11"), z3.And(e.coerce(st, d["host"], "str").t == decode_ascii(F(c, po, "Origin.host")), e.coerce(st, d["port"], "int").t == F(c, po, "Origin.port"))),
                     ("socks_tcp_connect_timeout", ("C16",), d["timeout"].t == timeout_of(ext, "connect")),
+                    # same hazard as HTTPConnection: the pool drops an unconnected connection marked failed
+                    ("never_establishes_a_connection_already_marked_failed", ("C06", "C04", "C05"), z3.Not(F(c, s, "SK._connect_failed"))),
                     ("socks_connect_under_lock_and_only_once", ("C04", "C08", "C06"), z3.And(z3.BoolVal(lid in c.st.held), F(c, s, "SK._connection") == 0)),
                 ]
             if ev.name == "call:" + INIT:
